@@ -266,7 +266,7 @@ fn part1() -> Stats {
 // Part 2: history search
 
 const RTP_LETTERS: [&str; 14] = [
-    "G+1", "G-1", "G+2", "GB+1", "F.seq+20000", "F.seq+40000", "F.hdr-ts", "F.ext", "F.payload", "F.tag", "F.ssrcB-payload", "F.fresh-ssrc", "F.truncated",
+    "G+1", "G-1", "G+2", "GB+1", "F.seq+20000", "F.seq+40000", "F.hdr-ts", "F.ext", "F.payload", "F.tag", "F.ssrcB-payload", "F.fresh-ssrc-x40", "F.truncated",
     // a forged SRTCP packet naming SSRC A (a genuine sender report with one payload bit flipped),
     // handed to unprotect_rtcp of the SAME session in the middle of the RTP history: RTP and SRTCP
     // receive state of one SSRC live in one context
@@ -276,9 +276,10 @@ fn n_letters(kind: &str) -> u64 {
     if kind == "rtp" { 14 } else { 13 }
 }
 const RTCP_LETTERS: [&str; 13] = [
-    "G+1", "G-1", "G+2", "GB+1", "F.index+1", "F.index-far", "F.e-bit", "F.hdr", "F.payload", "F.tag", "F.ssrcB-payload", "F.fresh-ssrc", "F.truncated",
+    "G+1", "G-1", "G+2", "GB+1", "F.index+1", "F.index-far", "F.e-bit", "F.hdr", "F.payload", "F.tag", "F.ssrcB-payload", "F.fresh-ssrc-x40", "F.truncated",
 ];
 const N_GENUINE: u8 = 4;
+const FRESH_STORM: usize = 40;
 const SSRC_A: u32 = 0x1357_9bdf;
 const SSRC_B: u32 = 0x2468_ace0;
 
@@ -336,6 +337,8 @@ fn make_stream(kind: &'static str, profile: SrtpProfile, ks: &KeySet, base_seq_a
 }
 
 struct Event {
+    /// further forged datagrams of the same step (a storm of forgeries on distinct fresh SSRCs)
+    more: Vec<Vec<u8>>,
     /// fed to unprotect_rtcp although the history is an RTP history
     via_rtcp: bool,
     genuine: bool,
@@ -350,7 +353,7 @@ struct Event {
 fn make_event(s: &Stream, letter: u8, cur: &mut [usize; 2], fresh: &mut u32) -> Event {
     let gen_ev = |t: usize, j: usize| {
         let (p, pl) = if t == 0 { &s.a[j] } else { &s.b[j] };
-        Event { via_rtcp: false, genuine: true, target: t as u8, bytes: p.clone(), plain: Some(pl.clone()) }
+        Event { more: vec![], via_rtcp: false, genuine: true, target: t as u8, bytes: p.clone(), plain: Some(pl.clone()) }
     };
     match letter {
         0 => {
@@ -369,13 +372,14 @@ fn make_event(s: &Stream, letter: u8, cur: &mut [usize; 2], fresh: &mut u32) -> 
             cur[1] += 1;
             gen_ev(1, cur[1])
         }
-        13 if s.kind == "rtp" => Event { via_rtcp: true, genuine: false, target: 2, bytes: s.forged_rtcp_a.clone(), plain: None },
+        13 if s.kind == "rtp" => Event { more: vec![], via_rtcp: true, genuine: false, target: 2, bytes: s.forged_rtcp_a.clone(), plain: None },
         _ => {
             let next_a = s.a[cur[0] + 1].0.clone();
             let cur_a = s.a[cur[0]].0.clone();
             let next_b = s.b[cur[1] + 1].0.clone();
             let mut target = 0u8;
             let mut f;
+            let mut more: Vec<Vec<u8>> = vec![];
             if s.kind == "rtp" {
                 match letter {
                     4 | 5 => {
@@ -406,9 +410,20 @@ fn make_event(s: &Stream, letter: u8, cur: &mut [usize; 2], fresh: &mut u32) -> 
                         target = 1;
                     }
                     11 => {
+                        // a storm: 40 forged packets, each on an SSRC never seen before (more than
+                        // any per-SSRC table bound), so receiver-side bookkeeping per forged SSRC
+                        // cannot push the genuine streams' state out
                         f = next_a;
-                        *fresh += 1;
-                        f[8..12].copy_from_slice(&(0x7000_0000u32 + *fresh).to_be_bytes());
+                        for k in 0..FRESH_STORM {
+                            let mut g = f.clone();
+                            *fresh += 1;
+                            g[8..12].copy_from_slice(&(0x7000_0000u32 + *fresh).to_be_bytes());
+                            if k == 0 {
+                                more.clear();
+                            }
+                            more.push(g);
+                        }
+                        f = more.remove(0);
                         target = 2;
                     }
                     _ => {
@@ -456,8 +471,13 @@ fn make_event(s: &Stream, letter: u8, cur: &mut [usize; 2], fresh: &mut u32) -> 
                     }
                     11 => {
                         f = next_a;
-                        *fresh += 1;
-                        f[4..8].copy_from_slice(&(0x7000_0000u32 + *fresh).to_be_bytes());
+                        for _ in 0..FRESH_STORM {
+                            let mut g = f.clone();
+                            *fresh += 1;
+                            g[4..8].copy_from_slice(&(0x7000_0000u32 + *fresh).to_be_bytes());
+                            more.push(g);
+                        }
+                        f = more.remove(0);
                         target = 2;
                     }
                     _ => {
@@ -466,7 +486,7 @@ fn make_event(s: &Stream, letter: u8, cur: &mut [usize; 2], fresh: &mut u32) -> 
                     }
                 }
             }
-            Event { via_rtcp: false, genuine: false, target, bytes: f, plain: None }
+            Event { more, via_rtcp: false, genuine: false, target, bytes: f, plain: None }
         }
     }
 }
@@ -505,7 +525,14 @@ impl Receiver {
     }
     /// Returns (session result, mirror result if the event addresses a mirrored SSRC).
     fn apply(&mut self, s: &Stream, e: &Event) -> (Rx, Option<Rx>) {
-        let r = if s.kind == "rtp" && !e.via_rtcp { sess_unprotect_rtp_bytes(&mut self.sess, &e.bytes) } else { sess_unprotect_rtcp(&mut self.sess, &e.bytes) };
+        let mut r = if s.kind == "rtp" && !e.via_rtcp { sess_unprotect_rtp_bytes(&mut self.sess, &e.bytes) } else { sess_unprotect_rtcp(&mut self.sess, &e.bytes) };
+        for x in &e.more {
+            let rr = if s.kind == "rtp" && !e.via_rtcp { sess_unprotect_rtp_bytes(&mut self.sess, x) } else { sess_unprotect_rtcp(&mut self.sess, x) };
+            // the step is 'rejected' only if every datagram of it is: an acceptance surfaces
+            if !matches!(rr, Rx::Err(_)) && matches!(r, Rx::Err(_)) {
+                r = rr;
+            }
+        }
         let m = match (&mut self.mirror, e.target) {
             (Some(m), t) if t < 2 => Some(ctx_unprotect_rtp_bytes(&mut m[t as usize], &e.bytes)),
             _ => None,
